@@ -10,7 +10,10 @@ It plays, cycle by cycle and using only DUT outputs of earlier cycles:
       - IN request = ACK TP(seq = next expected, NumP = 1); one outstanding request at a time;
       - DP received well  -> ACK TP(seq+1, NumP = 1: also asks for the next | NumP = 0: stops polling for a while);
       - DP received badly -> ACK TP(same seq, Rty = 1, NumP = 1)   (at most two retries per packet);
-      - NRDY -> no IN request until the device has sent ERDY;
+      - NRDY -> no IN request until the device has sent ERDY -- or, when the case carries a `repoll` plan, the host
+        resumes polling the flow-controlled endpoint on its own after a generated delay (USB 3.2 8.10.1 lets a host
+        resume transactions to a flow-controlled endpoint without having received an ERDY); unless `repoll_race`
+        is set such a re-poll is only issued while the awaited packet is still incomplete in the stream;
       - stray ACK TPs addressed to other endpoints.
 
 Everything it did and saw is logged as events for the oracle (props/c46.py); the BFM itself judges nothing.
@@ -62,6 +65,12 @@ class InEndpointBfm:
         self.noise_at = self.noise[0]["gap"] if self.noise else None
         self.final_done = False
         self.quiet = 0
+        # host re-polls during flow control (absent in old cases: never)
+        self.repoll = list(case.get("repoll", []))
+        self.repoll_i = 0
+        self.repoll_timer = None
+        self.repoll_race = case.get("repoll_race", 0)
+        self.done_words = case.get("done_words")
         # ---- logs ----
         self.events = []
         self.accept_cycle = []          # cycle in which stream word k was accepted
@@ -137,8 +146,14 @@ class InEndpointBfm:
                 ev.append(dict(e="tp_sent", t=t - 1, kind=self.gen_kind))
                 if self.gen_kind == "nrdy" and self.hstate == "WAIT":
                     self.hstate = "FLOW"
+                    self.repoll_timer = None
+                    if self.repoll:
+                        d = self.repoll[self.repoll_i % len(self.repoll)]
+                        self.repoll_i += 1
+                        self.repoll_timer = d - 1 if d > 0 else None
                 elif self.gen_kind == "erdy" and self.hstate == "FLOW":
                     self.hstate = "IDLE"
+                    self.repoll_timer = None
                     self.htimer = self._decision()["delay"]
             if prev.zlp:
                 dp = dict(e="dp", t0=t - 1, t1=t - 1, data=b"", seq=prev.tseq, length=prev.tlen, ep=prev.tep,
@@ -238,6 +253,20 @@ class InEndpointBfm:
                 ev.append(dict(e="host_timeout", t=t))
                 self.stop_reason = "unanswered"
                 return None
+        elif self.hstate == "FLOW" and self.repoll_timer is not None:
+            activity = True
+            if self.repoll_timer > 0:
+                self.repoll_timer -= 1
+            else:
+                self.repoll_timer = None
+                complete = self.done_words is not None and self.good < len(self.done_words) and \
+                    self.wi > self.done_words[self.good]
+                if self.good < self.n_expected and (self.repoll_race or not complete):
+                    # the host resumes polling the flow-controlled endpoint without having seen an ERDY
+                    self._host_send(vec, t, self.hseq, 1, 0, fresh=True)
+                    self.events[-1]["repoll"] = True
+                    self.hstate = "WAIT"
+                    self.wait_since = t
         if not vec["ack"] and self.noise and self.noise_at <= t:
             nz = self.noise.pop(0)
             self.noise_at = t + 1 + (self.noise[0]["gap"] if self.noise else 0)
